@@ -18,9 +18,9 @@ import common as C  # noqa: E402
 from floatcmp import f2b, b2f, close  # noqa: E402
 from parallel import driver_parallel  # noqa: E402
 
-GEN = ['CurvesF', 'CurvesR', 'DateK', 'DayCount']   # DateK/DayCount: Props/C02f (time axes) is about the generated year_frac
+GEN = ['CurvesF', 'CurvesR', 'DateK', 'DayCount', 'InterpLoopR']   # InterpLoopR: Props/C02g (generated loops of _uinterpolate); DateK/DayCount: Props/C02f (time axes) is about the generated year_frac
 PROPS = ['FinVerif.Props.C02a', 'FinVerif.Props.C02b', 'FinVerif.Props.C02c', 'FinVerif.Props.C02d', 'FinVerif.Props.C02e',
-         'FinVerif.Props.C02f']
+         'FinVerif.Props.C02f', 'FinVerif.Props.C02g']
 DRIVERS = ['FinVerif.Driver.C02', 'FinVerif.Driver.C02Axis']
 
 RULE = ('uinterp: seeded knot vectors (1..8 knots, first knot 0 or later, dfs from zero rates of both signs) x the three '
@@ -126,7 +126,7 @@ def run(ctx):
         if p not in props:
             ctx.broke(f'proof: {p} is missing')
     drivers_ok = C.lean_stage(ctx, GEN, props, DRIVERS,
-                              extra_files=['FinVerif/Model/C02.lean', 'FinVerif/Model/C02Ext.lean', 'FinVerif/Spec/C02.lean', 'FinVerif/Lemmas/C02Real.lean', 'FinVerif/Lemmas/C02Interp.lean', 'FinVerif/Lemmas/C02Alg.lean', 'FinVerif/Spec/TimeAxis.lean'])
+                              extra_files=['FinVerif/Model/C02.lean', 'FinVerif/Model/C02Ext.lean', 'FinVerif/Spec/C02.lean', 'FinVerif/Lemmas/C02Real.lean', 'FinVerif/Lemmas/C02Interp.lean', 'FinVerif/Lemmas/C02Alg.lean', 'FinVerif/Spec/TimeAxis.lean', 'FinVerif/Lemmas/C20Loop.lean'])
     C.import_financepy()
     import numpy as np
     import warnings
